@@ -300,7 +300,7 @@ class Interp:
         return self.eval_seq(node.elts, env)
 
     def e_Set(self, node, env):
-        return set(self.eval_seq(node.elts, env))
+        return set(self.hashable(v) for v in self.eval_seq(node.elts, env))
 
     def eval_seq(self, elts, env) -> list:
         out = []
